@@ -1,1 +1,294 @@
-//! reference model `byte_channel` — not built yet.
+//! Reference model `byte_channel` — what a one-way body channel owes its reader (C07).
+//!
+//! Written from the property text, not from `actix-http/src/h1/payload.rs`: a FIFO of uniquely
+//! numbered bytes plus what the feeding side has signalled about the end.  The model never says
+//! what the channel *will* return; it judges what the real channel *did* return:
+//!
+//! * data: must be the exact next bytes of the FIFO, in order (chunk boundaries are not part of
+//!   the contract; empty chunks carry no bytes and are ignored);
+//! * `Pending`: only if nothing is owed — no byte buffered, no ending signalled and undelivered;
+//! * error `e`: only after every buffered byte was delivered, and `e` must be an error the feeder
+//!   set (and that was not delivered yet), or `Incomplete` if the feeder vanished without
+//!   signalling any ending;
+//! * clean end: only after every buffered byte was delivered, only if the end of the body was
+//!   signalled, and not while a signalled error is still undelivered (that would be a clean end
+//!   *alone* for a body that was cut short).  Error first, then clean end, is a truthful ending.
+//!
+//! After the first ending (error or clean end) was delivered the model only keeps insisting on
+//! the exact bytes (data chunks, `Pending`/clean end while bytes are buffered) and on "no clean end
+//! that was never signalled"; everything else — further errors in particular — is tolerated.
+//!
+//! Back-pressure: `LIMIT` is the buffering limit.  The model knows how many bytes are buffered
+//! and whether that figure was inflated by the reader pushing data back (`tainted`): the real
+//! channel does not re-evaluate its "need more" flag on push-back, which is accepted.
+
+use std::collections::VecDeque;
+
+/// the buffering limit of the channel under test (32 KiB, documented on `MAX_BUFFER_SIZE`)
+pub const LIMIT: usize = 32 * 1024;
+
+#[derive(Clone, Copy, Debug, PartialEq, Eq, Hash)]
+pub enum ErrKind {
+    Incomplete,
+    EncodingCorrupted,
+    Overflow,
+    UnknownLength,
+    Io,
+    /// anything the harness never sets (HTTP/2 errors…)
+    Other,
+}
+
+impl ErrKind {
+    pub fn name(&self) -> &'static str {
+        match self {
+            ErrKind::Incomplete => "incomplete",
+            ErrKind::EncodingCorrupted => "encoding",
+            ErrKind::Overflow => "overflow",
+            ErrKind::UnknownLength => "unknown-length",
+            ErrKind::Io => "io",
+            ErrKind::Other => "other",
+        }
+    }
+}
+
+/// A run of consecutively numbered bytes.  `src` 0: numbered by the connection (fed), 1: fresh
+/// bytes invented by the reader for a push-back.  `off` is where the harness finds the byte values
+/// (opaque to the model).  `back` is set by the model on everything the reader pushed back,
+/// whether fresh or previously read.
+#[derive(Clone, Copy, Debug, PartialEq, Eq)]
+pub struct Seg {
+    pub src: u8,
+    pub id: u64,
+    pub off: usize,
+    pub len: usize,
+    pub back: bool,
+}
+
+#[derive(Clone, Copy, Debug, PartialEq, Eq)]
+pub enum End {
+    Clean,
+    Error(ErrKind),
+}
+
+/// Which clause of the property an observation broke.
+#[derive(Clone, Debug, PartialEq, Eq)]
+pub enum Fault {
+    /// more bytes delivered than were ever put in
+    PhantomBytes { got: usize, buffered: usize },
+    /// reader told to wait although bytes / an ending are owed to it
+    PendingWhileOwed { buffered: usize, eof: bool, errs: usize },
+    /// an ending (error or clean end) delivered while fed bytes are still undelivered
+    LostBytes { undelivered: usize, ending: End },
+    /// an error nobody set, and the feeder did not vanish
+    PhantomError(ErrKind),
+    /// an error of a different kind than any that was set / implied
+    WrongError { got: ErrKind, owed: Vec<ErrKind> },
+    /// clean end although the end of the body was never signalled
+    FalseCleanEnd { sender_gone: bool },
+    /// clean end delivered while a signalled error is still undelivered
+    CleanEndHidesError(Vec<ErrKind>),
+}
+
+impl Fault {
+    pub fn class(&self) -> &'static str {
+        match self {
+            Fault::PhantomBytes { .. } => "bytes/phantom",
+            Fault::PendingWhileOwed { .. } => "stall/pending-while-owed",
+            Fault::LostBytes { .. } => "bytes/lost-before-ending",
+            Fault::PhantomError(_) => "ending/phantom-error",
+            Fault::WrongError { .. } => "ending/wrong-error",
+            Fault::FalseCleanEnd { .. } => "ending/false-clean-end",
+            Fault::CleanEndHidesError(_) => "ending/clean-end-hides-error",
+        }
+    }
+}
+
+#[derive(Clone, Debug)]
+pub struct Channel {
+    segs: VecDeque<Seg>,
+    buffered: usize,
+    pub eof_signalled: bool,
+    /// errors signalled (set by the feeder, or implied by its disappearance) and not yet delivered
+    pub errs: Vec<ErrKind>,
+    pub err_ever_set: bool,
+    pub sender_alive: bool,
+    pub reader_alive: bool,
+    /// first ending the reader was given
+    pub delivered_end: Option<End>,
+    /// the reader pushed bytes back since the buffer was last seen below the limit
+    pub tainted: bool,
+    pub total_in: u64,
+    pub total_out: u64,
+}
+
+impl Channel {
+    /// `eof`: the channel is created already at end-of-body (nothing will ever be fed).
+    pub fn new(eof: bool) -> Self {
+        Channel {
+            segs: VecDeque::new(),
+            buffered: 0,
+            eof_signalled: eof,
+            errs: vec![],
+            err_ever_set: false,
+            sender_alive: true,
+            reader_alive: true,
+            delivered_end: None,
+            tainted: false,
+            total_in: 0,
+            total_out: 0,
+        }
+    }
+
+    pub fn buffered(&self) -> usize {
+        self.buffered
+    }
+    pub fn chunks(&self) -> usize {
+        self.segs.len()
+    }
+    pub fn buffered_unread(&self) -> usize {
+        self.segs.iter().filter(|s| s.back).map(|s| s.len).sum()
+    }
+    /// an ending has been signalled and not (fully) delivered yet
+    pub fn ending_owed(&self) -> bool {
+        self.delivered_end.is_none() && (self.eof_signalled || !self.errs.is_empty())
+    }
+    /// the reader is owed something right now (so `Pending` would be a stall)
+    pub fn owed(&self) -> bool {
+        self.buffered > 0 || self.ending_owed()
+    }
+
+    fn untaint(&mut self) {
+        if self.buffered < LIMIT {
+            self.tainted = false;
+        }
+    }
+
+    // ---- feeding side -------------------------------------------------------------------------
+
+    /// No effect once the reader is gone (nobody can observe the bytes).
+    pub fn feed(&mut self, seg: Seg) {
+        if !self.reader_alive || seg.len == 0 {
+            return;
+        }
+        self.total_in += seg.len as u64;
+        self.buffered += seg.len;
+        self.segs.push_back(seg);
+    }
+    pub fn feed_eof(&mut self) {
+        self.eof_signalled = true;
+    }
+    pub fn set_error(&mut self, k: ErrKind) {
+        self.err_ever_set = true;
+        self.errs.push(k);
+    }
+    /// Returns true if the disappearance itself is an event the reader must learn about (the body
+    /// was cut short: neither an end nor an error had been signalled).
+    pub fn drop_sender(&mut self) -> bool {
+        let was = self.sender_alive;
+        self.sender_alive = false;
+        if was && !self.eof_signalled && !self.err_ever_set {
+            self.errs.push(ErrKind::Incomplete);
+            true
+        } else {
+            false
+        }
+    }
+
+    // ---- reading side -------------------------------------------------------------------------
+
+    pub fn unread(&mut self, mut seg: Seg) {
+        if seg.len == 0 {
+            return;
+        }
+        seg.back = true;
+        self.total_in += seg.len as u64;
+        self.buffered += seg.len;
+        self.segs.push_front(seg);
+        self.tainted = true;
+    }
+    pub fn drop_reader(&mut self) {
+        self.reader_alive = false;
+        self.segs.clear();
+        self.buffered = 0;
+        self.tainted = false;
+    }
+
+    /// The reader was given a data chunk of `n` bytes: which bytes must they be?  Also tells
+    /// whether the chunk is exactly the oldest queued chunk (boundary preserved; evidence only).
+    pub fn on_data(&mut self, n: usize) -> Result<(Vec<Seg>, bool), Fault> {
+        if n > self.buffered {
+            return Err(Fault::PhantomBytes { got: n, buffered: self.buffered });
+        }
+        let whole = self.segs.front().map(|s| s.len == n).unwrap_or(false);
+        let mut out = Vec::with_capacity(1);
+        let mut need = n;
+        while need > 0 {
+            let front = self.segs.front_mut().expect("buffered accounting");
+            if front.len <= need {
+                need -= front.len;
+                out.push(*front);
+                self.segs.pop_front();
+            } else {
+                out.push(Seg { len: need, ..*front });
+                front.id += need as u64;
+                front.off += need;
+                front.len -= need;
+                need = 0;
+            }
+        }
+        self.buffered -= n;
+        self.total_out += n as u64;
+        self.untaint();
+        Ok((out, whole))
+    }
+
+    pub fn on_pending(&mut self) -> Result<(), Fault> {
+        // owed(): buffered bytes always; a signalled ending only until the first ending was delivered
+        if self.owed() {
+            return Err(Fault::PendingWhileOwed { buffered: self.buffered, eof: self.eof_signalled, errs: self.errs.len() });
+        }
+        self.untaint();
+        Ok(())
+    }
+
+    pub fn on_error(&mut self, k: ErrKind) -> Result<(), Fault> {
+        if self.delivered_end.is_some() {
+            // the reader already has its ending; consumers stop there, so a further error is
+            // outside the contract (tolerated, whatever it is)
+            self.errs.clear();
+            self.untaint();
+            return Ok(());
+        }
+        if self.buffered > 0 {
+            return Err(Fault::LostBytes { undelivered: self.buffered, ending: End::Error(k) });
+        }
+        if self.errs.is_empty() {
+            return Err(Fault::PhantomError(k));
+        }
+        if !self.errs.contains(&k) {
+            return Err(Fault::WrongError { got: k, owed: self.errs.clone() });
+        }
+        // one delivery settles every error signalled so far (a later set_error replaces an earlier one)
+        self.errs.clear();
+        self.delivered_end = Some(End::Error(k));
+        self.untaint();
+        Ok(())
+    }
+
+    pub fn on_end(&mut self) -> Result<(), Fault> {
+        if self.buffered > 0 {
+            return Err(Fault::LostBytes { undelivered: self.buffered, ending: End::Clean });
+        }
+        if !self.eof_signalled {
+            return Err(Fault::FalseCleanEnd { sender_gone: !self.sender_alive });
+        }
+        if self.delivered_end.is_none() && !self.errs.is_empty() {
+            return Err(Fault::CleanEndHidesError(self.errs.clone()));
+        }
+        if self.delivered_end.is_none() {
+            self.delivered_end = Some(End::Clean);
+        }
+        self.untaint();
+        Ok(())
+    }
+}
